@@ -48,10 +48,22 @@ class C15(Prop):
             'ties between firing, timeout and stop are frequent; thorough adds the full grid term x (fire|fail at 1,2,3 before/inside f or '
             'at once) x (stop at 1,2,3 before/inside f or at once) x order x 0-2 leftovers with timeout 2, and two-run histories with and '
             'without clear_junk. non-trivial = some run is not refused and has a Deferred-returning f with at least one delayed fire/fail/stop, '
-            'or the history has a refused run; distinct = distinct input S-expression')
+            'or the history has a refused run; distinct = distinct input S-expression. 12 scenarios on the REAL Twisted reactor (feature '
+            'reactor:real) come first in the thorough enumeration, 5 of them are part of every quick run')
     assumptions = [
         'the reactor loop, DelayedCall ordering/cancellation and Deferred callback chaining (twisted) are modelled (TTV/Model/Reactor.lean), '
-        'not verified; the correspondence runs on harness/vreactor.py (a twisted Clock), not on a real reactor',
+        'not verified; the correspondence runs on harness/vreactor.py (a twisted Clock with the iteration semantics of '
+        'ReactorBase.runUntilCurrent) except for the real-reactor scenarios',
+        'REAL reactor: 12 smoke scenarios (sync return, sync raise, fires / fails well before the timeout, never fires, stop requested, '
+        'leftover junk cancelled and reported, re-entrant run refused, stale junk refused, signal handlers and reactor.stop restored, call '
+        'scheduled before run, fires after the timeout) run on twisted.internet.reactor, spun repeatedly (crash, never stop), with 40 ms '
+        'per time unit and distinct instants at least 2 units apart; an executed call is reported at its nominal delay, a run in which some '
+        'call was more than 0.9 unit late is repeated with a doubled unit (at most 3 times); the trace (order of the executed calls, '
+        'result, junk, what is left in the reactor, signal handlers) is compared with the model exactly as for the virtual reactor; the '
+        'process is left clean (no delayed calls, readers, writers; reactor not running). 5 scenarios in quick, all 12 in thorough',
+        'the Spinner model has no parameter for the obligatory shake-out iterations of _clean (_OBLIGATORY_REACTOR_ITERATIONS = 0 for the '
+        'plain Spinner; the model decides the result when the loop ends and then collects the junk): their interplay with the result is '
+        'covered by C14 (broken-Twisted variant), not here',
         'the signal module is modelled as a table handler-per-signal; the thread-pool branch of Spinner._clean is not exercised',
         'not_reentrant is modelled as: every nested call of Spinner.run raises ReentryError and changes nothing',
         'Spinner(debug=True) (DebugTwisted) is exercised but assumed to be unobservable',
@@ -66,10 +78,12 @@ class C15(Prop):
                 'StaleJunkError iff junk is uncleared and ReentryError for every nested call, both without any other change; after every run '
                 'the reactor is not running, has no delayed calls or selectables, reactor.stop and SIGINT/SIGTERM/SIGCHLD handlers are restored, '
                 'the junk is exactly the leftovers, the run lasts at most the timeout and its loop ends by a crash. The hand-written model is tied '
-                'to the real Spinner by a differential check on a virtual-time reactor (random histories + exhaustive timing grid) and by the '
-                'extracted _PRESERVED_SIGNALS table.',
+                'to the real Spinner by a differential check on a virtual-time reactor (random histories + exhaustive timing grid), by 12 smoke '
+                'scenarios on the real Twisted reactor and by the extracted _PRESERVED_SIGNALS table.',
         'note': 'trusted: Lean kernel, the models TTV/Model/Reactor.lean + Spinner.lean, the harness and harness/vreactor.py; the Twisted reactor '
-                'loop, DelayedCall, Deferred chaining and the signal module are modelled, not verified; real-reactor and thread-pool paths are not exercised',
+                'loop, DelayedCall, Deferred chaining and the signal module are modelled, not verified; real-reactor coverage = 12 smoke scenarios '
+                '(feature reactor:real: 5 per quick run, 12 per thorough run), everything else on the virtual-time reactor; the thread-pool '
+                'path of _clean is not exercised',
         'technique': 'Lean 4 invariant proofs over a discrete-event model (sorted call queue, fuelled reactor loop), executable spec shared with a '
                      'differential correspondence check against the real code on a virtual-time reactor',
     }
@@ -91,9 +105,18 @@ class C15(Prop):
         sigs = [getattr(signal, n) for n in SIGNALS]
         saved = [signal.getsignal(s) for s in sigs]
         try:
-            for s, sig in enumerate(sigs):
-                signal.signal(sig, HANDLERS[s][0])
-            return self._run(inp)
+            scale = REAL_UNIT
+            for attempt in range(4):
+                for s, sig in enumerate(sigs):
+                    signal.signal(sig, HANDLERS[s][0])
+                info = {}
+                trace = self._run(inp, scale, info)
+                if not info.get('disturbed'):
+                    return trace
+                # the real reactor ran a call late by most of a time unit (machine under load), so the order of the nominal
+                # scenario is not guaranteed: once more, with a longer unit
+                scale *= 2
+            return trace + [['real-reactor-disturbed', info['drift']]]
         except BaseException as e:
             if isinstance(e, KeyboardInterrupt):
                 raise
@@ -109,7 +132,7 @@ class C15(Prop):
             out.append(HANDLERS[s].index(h) if h in HANDLERS[s] else 99)
         return out
 
-    def _run(self, inp):
+    def _run(self, inp, real_unit, info):
         from twisted.internet import defer
         from twisted.internet.defer import AlreadyCalledError
         from testtools.twistedsupport import _spinner as S
@@ -117,10 +140,12 @@ class C15(Prop):
         debug, steps = inp[0], inp[1]
         real = len(inp) > 2 and inp[2] == 'real'
         if real:
-            # the REAL Twisted reactor, spun repeatedly by the Spinner (crash, never stop); delays in units of REAL_UNIT seconds;
-            # event times are reported as the nominal delay of the call that ran (order and outcome are observed, durations are not)
+            # the REAL Twisted reactor, spun repeatedly by the Spinner (crash, never stop); delays in units of `real_unit` seconds;
+            # event times are reported as the nominal delay of the call that ran (order and outcome are observed, durations are not);
+            # the nominal order is the real order as long as every call runs less than one unit late (distinct instants are at
+            # least 2 units apart in the scenarios): the lateness is measured, a disturbed run is repeated by run_impl
             from twisted.internet import reactor as r
-            scale = REAL_UNIT
+            scale = real_unit
             if r.running or r.getDelayedCalls():
                 return ['real-reactor-not-clean']
         else:
@@ -132,10 +157,15 @@ class C15(Prop):
             timed_out = sp._timed_out          # instrumentation only: note when the spinner's own timeout call runs
 
             def noting_timed_out(*a, **kw):
+                arrived(real_T[0])
                 real_events.append([real_T[0], 'timeout'])
                 return timed_out(*a, **kw)
             sp._timed_out = noting_timed_out
         real_T = [0]
+        drift = [0.0]
+
+        def arrived(delay):
+            drift[0] = max(drift[0], (r.seconds() - t0) / scale - delay)
         label = {}          # id(DelayedCall) -> label
         keep = []           # keeps the labelled objects alive (ids stay unique)
         timeouts = set()
@@ -204,6 +234,7 @@ class C15(Prop):
                 go = act(l, a)
                 if real:
                     def go(go=go):
+                        arrived(delay)
                         real_events.append([delay, l])
                         go()
                 dc = r.callLater(delay * scale, go)
@@ -252,6 +283,7 @@ class C15(Prop):
                 timeouts.add(id(sp._timeout_call))
                 keep.append(sp._timeout_call)
             if real:
+                arrived(max([e[0] for e in real_events] + [0]))      # the synchronous tail counts, too
                 events = now_events + [list(e) for e in real_events]
                 n_sel = len([x for x in r.getReaders() + r.getWriters() if x not in r._internalReaders])
                 elapsed = max([e[0] for e in real_events] + [0])
@@ -274,6 +306,8 @@ class C15(Prop):
         if real:
             for dc in r.getDelayedCalls():          # leave the process clean whatever happened
                 dc.cancel()
+            info['drift'] = round(drift[0], 2)
+            info['disturbed'] = drift[0] > 0.9
         return trace
 
     # ----- scenarios on the real reactor (events at least 2 units apart, so that their order is robust under load)
